@@ -73,6 +73,17 @@ type Tap struct {
 	byID map[string]*Exchange
 	all  []*Exchange
 	Keep bool // keep bodies (default true via NewTap)
+	// CloseErr, when set, is what every response body's Close returns after
+	// it has really closed the body (a decorating RoundTripper whose Close
+	// reports a late transport complaint): the call's outcome was decided by
+	// what had been read before.
+	CloseErr error
+	// HoldBack makes every response body keep the last byte of each read for
+	// the next one (a buffering decorator): when the transport then fails,
+	// Read returns that byte together with the error - (n > 0, err), which
+	// io.Reader allows. Only for responses whose sender stalls or ends; a
+	// peer that waits for an answer to the withheld byte would deadlock.
+	HoldBack bool
 }
 
 // NewTap builds a tap around next.
@@ -117,12 +128,37 @@ func (b *tapReqBody) Close() error {
 
 type tapRespBody struct {
 	io.ReadCloser
-	ex   *Exchange
-	resp *http.Response
-	keep bool
+	ex       *Exchange
+	resp     *http.Response
+	keep     bool
+	closeErr error
+	hold     bool
+	pending  []byte
 }
 
 func (b *tapRespBody) Read(p []byte) (int, error) {
+	if !b.hold || len(p) == 0 {
+		return b.readUnder(p)
+	}
+	off := 0
+	if len(b.pending) > 0 {
+		p[0] = b.pending[0]
+		b.pending = b.pending[:0]
+		off = 1
+		if len(p) == 1 {
+			return 1, nil
+		}
+	}
+	n, err := b.readUnder(p[off:])
+	total := off + n
+	if err == nil && total > 1 {
+		b.pending = append(b.pending[:0], p[total-1])
+		total--
+	}
+	return total, err
+}
+
+func (b *tapRespBody) readUnder(p []byte) (int, error) {
 	n, err := b.ReadCloser.Read(p)
 	b.ex.mu.Lock()
 	if n > 0 && b.keep {
@@ -142,7 +178,11 @@ func (b *tapRespBody) Read(p []byte) (int, error) {
 
 func (b *tapRespBody) Close() error {
 	atomic.AddInt32(&b.ex.BodyCloses, 1)
-	return b.ReadCloser.Close()
+	err := b.ReadCloser.Close()
+	if b.closeErr != nil {
+		return b.closeErr
+	}
+	return err
 }
 
 // RoundTrip implements http.RoundTripper.
@@ -173,7 +213,7 @@ func (t *Tap) RoundTrip(req *http.Request) (*http.Response, error) {
 	ex.Proto = resp.Proto
 	ex.RespHeader = resp.Header.Clone()
 	ex.mu.Unlock()
-	resp.Body = &tapRespBody{ReadCloser: resp.Body, ex: ex, resp: resp, keep: t.Keep}
+	resp.Body = &tapRespBody{ReadCloser: resp.Body, ex: ex, resp: resp, keep: t.Keep, closeErr: t.CloseErr, hold: t.HoldBack}
 	return resp, nil
 }
 
